@@ -42,6 +42,22 @@ Section NoFresh.
   Qed.
 End NoFresh.
 
+(* the class excluded by fresh_name: some quantifier binds a variable (its own or one of its match
+   expression) whose NAME is already in scope *)
+Fixpoint K_rebound_name (dom : list var) (f : formula atom) {struct f} : bool :=
+  match f with
+  | FSmt _ | FSPred _ _ | FSemPred _ _ => false
+  | FNot g => K_rebound_name dom g
+  | FAnd fs | FOr fs => existsb (K_rebound_name dom) fs
+  | FForall v i m b | FExists v i m b =>
+      let vs := v :: match m with
+                     | Some me => flat_map (fun tp : tree * list (var * path) => map fst (snd tp)) (me_trees me)
+                     | None => []
+                     end in
+      negb (forallb (fun w => fresh_nameb w dom) vs) || K_rebound_name (vs ++ dom) b
+  | FForallInt v b | FExistsInt v b => negb (fresh_nameb v dom) || K_rebound_name (v :: dom) b
+  end.
+
 Definition R_tree : tree := (Node [60;115;116;97;114;116;62]%N 7%N false [(Node [60;97;115;115;103;110;62]%N 6%N false [(Node [60;118;97;114;62]%N 5%N false [(Node [120]%N 4%N false [])]); (Node [32;58;61;32]%N 3%N false []); (Node [60;114;104;115;62]%N 2%N false [(Node [60;100;105;103;105;116;62]%N 1%N false [(Node [49]%N 0%N false [])])])])]).
 Definition R_formula : formula atom := (FForall (MkVar VBound [97]%N [60;97;115;115;103;110;62]%N) (InVar (MkVar VConst [115;116;97;114;116]%N [60;115;116;97;114;116;62]%N)) None (FExists (MkVar VBound [97]%N [60;118;97;114;62]%N) (InVar (MkVar VBound [97]%N [60;97;115;115;103;110;62]%N)) None (FSmt (AStr false (SVar (MkVar VBound [97]%N [60;118;97;114;62]%N)) (SLit [120]%N))))).
 Definition R_formula_renamed : formula atom := (FForall (MkVar VBound [97]%N [60;97;115;115;103;110;62]%N) (InVar (MkVar VConst [115;116;97;114;116]%N [60;115;116;97;114;116;62]%N)) None (FExists (MkVar VBound [118]%N [60;118;97;114;62]%N) (InVar (MkVar VBound [97]%N [60;97;115;115;103;110;62]%N)) None (FSmt (AStr false (SVar (MkVar VBound [118]%N [60;118;97;114;62]%N)) (SLit [120]%N))))).
@@ -74,7 +90,9 @@ Proof. repeat split; vm_compute; reflexivity. Qed.
         `new_assignment | assignments` keeps the OLD binding, the inner quantifier is ignored.
    Every hypothesis of evaluate_correct_atoms but fresh_name holds (wfm_nofresh). *)
 Theorem evaluate_rebound_refuted :
-  (evaluate_guard R_tree W_cst R_formula_renamed = true /\ m_evaluate R_tree W_cst R_formula_renamed = Ok TT) /\
+  (evaluate_guard R_tree W_cst R_formula_renamed = true /\ m_evaluate R_tree W_cst R_formula_renamed = Ok TT /\
+   K_rebound_name [W_cst] R_formula_renamed = false /\ K_rebound_name [W_cst] R_formula = true /\
+   K_rebound_name [W_cst] R2_formula = true) /\
   (shape_ok R_tree = true /\ is_openT R_tree = false /\ uniq_ids R_tree /\ narrow R_tree /\
    term_leavesb R_tree = true /\ lbl R_tree = vtype W_cst /\ vk W_cst = VConst /\
    wfm_nofresh R_tree [W_cst] R_formula /\ me_nonempty R_formula = true /\
@@ -87,7 +105,7 @@ Theorem evaluate_rebound_refuted :
    m_evaluate R2_tree W_cst R2_formula = Ok FF /\ m_check R2_tree W_cst R2_formula = Ok false /\
    sat atom_denote R2_tree W_cst R2_formula).
 Proof.
-  split; [split; vm_compute; reflexivity|]. split.
+  split; [repeat split; vm_compute; reflexivity|]. split.
   - split; [reflexivity|]. split; [reflexivity|].
     split; [apply uniq_idsb_spec; vm_compute; reflexivity|].
     split; [apply narrowb_spec; vm_compute; reflexivity|].
